@@ -137,4 +137,31 @@ CLAIMED = {
              "configuration; build_vec_artifact = active(existing entries) + new docs and its result is installed; updates carry the old embedding; apply_records records the embedding under the pushed id.",
         note="Not decided: membership over histories (values). Thorough tier also analyses the `wide` feature configuration, where the Hnsw representation is reachable (known finding, config=wide).",
         design_ref="DESIGN.md §4 C14"),
+    "C07": dict(
+        technique="variant-table agreement of the canonical codec pair, edge-cut must-pass-through for the length test, sort-key agreement, provenance data-flow of chunk manifests",
+        text="Partial (codec pairing and provenance): every CanonicalEncoding produced is decoded by its inverse callee, stored-payload reads return only past the canonical_length "
+             "equality test, a chunked document's canonical payload is the concatenation of its children ordered by (chunk_index, id), and a chunk manifest that replaces the "
+             "stored payload on read must derive from the payload bytes themselves.",
+        note="Not decided: byte equality of reads with puts (values), text normalisation. Known finding (open): chunk manifests planned from extracted (lossy) text make the "
+             "canonical payload of a large non-UTF-8 document differ from the stored bytes.",
+        design_ref="DESIGN.md §4 C07"),
+    "C15": dict(
+        technique="sortedness typestate (forward dataflow) of the timeline entry vector + closure comparator analysis + writer/reader order-key agreement",
+        text="Partial: the entry vector of build_timeline is in the sorted state wherever it is reversed, binary-searched or consumed; since/until are inclusive per-entry "
+             "comparisons applied before reverse and take(limit); append_track sorts by (timestamp, frame_id) and read_track validates that very order.",
+        note="Not decided: completeness (every active document frame exactly once). The rule found a genuine defect (unsorted vector consumed), repaired by fix commit f554041.",
+        design_ref="DESIGN.md §4 C15"),
+    "C20": dict(
+        technique="stored-checksum use analysis: comparison of Frame.checksum with blake3(payload) must gate the serving path and verify(deep); edge-cut must-pass-through in read_toc and the track loaders",
+        text="Partial (checksum use): read_frame_payload_bytes returns Ok only past blake3(buf) == frame.checksum, verify(deep) reads every active payload through that comparison, "
+             "raw readers that bypass it are reported; read_toc returns Ok only through footer decode, toc_len equality, hash_matches, verify_toc_prefix and Toc::decode; track loaders "
+             "deserialise only past their checksum comparison. The evidence lists stored index-manifest checksums that no code compares (information only).",
+        note="Not decided: detection of every single-byte corruption. Fix commit 34d4061 added the payload comparison; known finding (open): blob_reader streams Plain payloads unchecked.",
+        design_ref="DESIGN.md §4 C20"),
+    "C30": dict(
+        technique="writer/reader layout agreement recovered from MIR with a constant evaluator (field -> offset/width/endianness maps; ordered item lists for streamed layouts) + edge-cut must-pass-through in Toc::decode",
+        text="Partial (layout agreement): header and footer field maps recovered from encode equal those recovered from decode, cover every field, are disjoint and inside the fixed "
+             "size, with the same validated fields; the time-index item list written equals the list read and hashed; Toc::decode returns Ok only on the bytes_read == len edge in all three format arms.",
+        note="Not decided: round-trip equality for arbitrary values; bincode/serde themselves (external).",
+        design_ref="DESIGN.md §4 C30"),
 }
